@@ -95,5 +95,19 @@ ProofOK == \A i \in 0..(Cap - 1) : /\ PProof(db, i) = Proof(Depth, ideal, i)
 ResultOK == lastres[1] \in lastres[2]
 KeysInjective == \A l1, l2 \in 0..Depth : \A i1 \in 0..(Pow2(l1) - 1), i2 \in 0..(Pow2(l2) - 1) :
                    Key(l1, i1) = Key(l2, i2) => l1 = l2 /\ i1 = i2
+\* The write set of a batch (what put_batch stores): every entry is either a node on the path of a written position, holding
+\* the ideal value after the write, or a copy of the value the store already reads there (the siblings fill_nodes carried along,
+\* the untouched leaves below `from`).  This is the abstraction Storage.tla's RangePlan makes (it lists the path nodes only):
+\* the extra entries of the real batch rewrite what is there, so faults and crashes see the same alternatives.
+BatchWriteSetOK ==
+  \A s \in 0..(Cap - 1) : \A vs \in Seqs(Vals, MaxBatch) :
+    (vs # <<>> /\ s + Len(vs) <= Cap) =>
+      LET sub == Fill(DPut(<< >>, <<0, 0>>, proot), db, 0, 0, s, s + Len(vs), vs, s)
+          rc == BRecalc(sub, 0, 0)[2]
+          post == RangeF(Depth, ideal, s, vs).st
+          OnPath(k) == \E p \in Rng(s, Len(vs)) : Anc(Depth, p, k[1]) = k[2]
+      IN /\ \A k \in DOMAIN rc : IF OnPath(k) THEN rc[k] = Node(Depth, post, k[1], k[2])
+                                    ELSE rc[k] = GetElem(db, k[1], k[2])
+         /\ \A l \in 0..Depth : \A i \in 0..(Pow2(l) - 1) : OnPath(<<l, i>>) => <<l, i>> \in DOMAIN rc
 LoadedEqualsLive == pnext = db[KNext] /\ proot = GetElem(db, 0, 0)
 =============================================================================
